@@ -1,10 +1,97 @@
-(* Property C05 -- statements only (proofs in Proofs/ExecProofs.v). *)
-From Coq Require Import List String.
-From GQL Require Import Exec.Syntax Exec.Coerce Exec.Exec Exec.Request Proofs.ExecProofs.
+(* Property C05 -- variables and arguments are coerced per declared type before resolvers run.
+   Statements only; proofs in Proofs/CoerceProofs.v and Proofs/ExecProofs.v.
+   SC / SL / NC (Exec/CoerceSpec.v) are the specification: conformant JSON-like values and
+   constant literals with the value they coerce to, and the listed non-conformant values.
+   valid_input / coerce_value / value_from_ast / get_variable_values (Exec/Coerce.v) model
+   isValidInputValue / coerceValue / valueFromAST / getVariableValues of values.go. *)
+From Coq Require Import List ZArith String.
+From GQL Require Import Exec.Syntax Exec.Coerce Exec.CoerceSpec Exec.Exec Exec.Request
+     Proofs.CoerceProofs Proofs.ExecProofs.
 Import ListNotations.
+Open Scope string_scope.
 
-(* A failure is absorbed exactly at nullable positions: completing at a nullable type never raises. *)
-Theorem C05_catch_nullable : forall t r, is_nonnull t = false ->
-  forall e s, catch_at t r <> XRaise e s.
-Proof. exact catch_at_nullable. Qed.
-Print Assumptions C05_catch_nullable.
+(* every listed non-conformant value is refused by the validity test, whatever the fuel *)
+Theorem C05_nonconformant_rejected : forall S t v, NC S t v ->
+  forall fuel b, valid_input fuel S t v = Some b -> b = false.
+Proof. exact nonconformant_rejected. Qed.
+Print Assumptions C05_nonconformant_rejected.
+
+(* and the request is then answered with an error, no data, and no resolver is invoked
+   (RReject carries neither data nor a resolver trace) *)
+Theorem C05_bad_variable_rejects_request : forall S D opn op inputs d,
+  get_operation D opn = Some op -> In d (o_vars op) ->
+  NC S (v_type d) (jlookup (v_name d) inputs) ->
+  forall fuel root or tor,
+    request fuel S D opn inputs root or tor = RReject \/ request fuel S D opn inputs root or tor = RFuel.
+Proof. exact request_rejects_bad_variable. Qed.
+Print Assumptions C05_bad_variable_rejects_request.
+
+(* conformant values are accepted ... *)
+Theorem C05_conformant_accepted : forall S t v r, SC S t v r ->
+  forall fuel b, valid_input fuel S t v = Some b -> b = true.
+Proof. exact conformant_valid. Qed.
+Print Assumptions C05_conformant_accepted.
+
+(* ... and coerce to exactly what the specification's input coercion yields (list-of-one
+   wrapping, nested input objects, enum internal values, input-field defaults, custom scalar) *)
+Theorem C05_coerce_correct : forall S t v r, SC S t v r ->
+  forall fuel r', coerce_value fuel S t v = Some r' -> r' = r.
+Proof. exact coerce_correct. Qed.
+Print Assumptions C05_coerce_correct.
+
+(* the same for constant literals *)
+Theorem C05_literal_correct : forall S t l r, SL S t l r ->
+  forall fuel vars r', value_from_ast fuel S t l vars = Some r' -> r' = r.
+Proof. exact literal_correct. Qed.
+Print Assumptions C05_literal_correct.
+
+(* supplying a type-conformant value as an inline literal or through a variable gives
+   resolvers the same argument *)
+Theorem C05_literal_variable_agree : forall S t l r, SL S t (Some l) r ->
+  forall fuel1 fuel2 vars r1 r2,
+    value_from_ast fuel1 S t (Some l) vars = Some r1 ->
+    coerce_value fuel2 S t (json_of l) = Some r2 ->
+    r1 = r2 /\ r1 = r.
+Proof. exact literal_variable_agree. Qed.
+Print Assumptions C05_literal_variable_agree.
+
+(* ---- non-vacuity: a schema with an enum and a nested input object; conformant and
+        non-conformant values exist and the model evaluates on them ---- *)
+Definition S0 : schema := {|
+  s_types := [("Int", TScalar SInt); ("E", TEnum [("A", JInt 1)]);
+              ("In", TInputObject [{| a_name := "a"; a_type := TNamed "Int"; a_default := Some (JInt 7) |};
+                                   {| a_name := "b"; a_type := TNonNull (TNamed "Int"); a_default := None |};
+                                   {| a_name := "e"; a_type := TList (TNamed "E"); a_default := None |}]);
+              ("Q", TObject [] [])];
+  s_query := "Q"; s_mutation := None |}.
+
+Example C05_conformant_exists :
+  SC S0 (TNamed "In") (JObj [("b", JInt 1); ("e", JStr "A")])
+     (JObj [("a", JInt 7); ("b", JInt 1); ("e", JList [JInt 1])]) /\
+  coerce_value 10 S0 (TNamed "In") (JObj [("b", JInt 1); ("e", JStr "A")])
+  = Some (JObj [("a", JInt 7); ("b", JInt 1); ("e", JList [JInt 1])]).
+Proof.
+  split; [|reflexivity].
+  change (JObj [("a", JInt 7); ("b", JInt 1); ("e", JList [JInt 1])])
+    with (JObj (keep_nonnull [("a", with_default (Some (JInt 7)) JNull); ("b", with_default None (JInt 1));
+                              ("e", with_default None (JList [JInt 1]))])).
+  eapply SC_obj; [reflexivity|reflexivity|].
+  apply (SCF_cons S0 {| a_name := "a"; a_type := TNamed "Int"; a_default := Some (JInt 7) |}).
+  { apply SC_null. reflexivity. }
+  apply (SCF_cons S0 {| a_name := "b"; a_type := TNonNull (TNamed "Int"); a_default := None |}).
+  { apply SC_nonnull; [discriminate|]. eapply SC_scalar; [reflexivity|]. apply sc_int. reflexivity. }
+  apply (SCF_cons S0 {| a_name := "e"; a_type := TList (TNamed "E"); a_default := None |}).
+  { apply SC_list1; [discriminate|discriminate|]. eapply SC_enum; [reflexivity|reflexivity|discriminate]. }
+  apply SCF_nil.
+Qed.
+
+Example C05_nonconformant_exists :
+  NC S0 (TNamed "In") (JObj [("e", JStr "A")]) /\            (* required field b missing *)
+  valid_input 10 S0 (TNamed "In") (JObj [("e", JStr "A")]) = Some false /\
+  NC S0 (TNamed "Int") (JInt 2147483648).
+Proof.
+  split; [|split; [reflexivity|]].
+  - eapply (NC_field S0 "In" _ _ {| a_name := "b"; a_type := TNonNull (TNamed "Int"); a_default := None |});
+      [reflexivity|right; left; reflexivity|]. apply NC_null.
+  - eapply NC_int_range; reflexivity.
+Qed.
